@@ -144,7 +144,7 @@ Qed.
 Definition lres_ok {A} (pre : list N) (r : lres A) : Prop :=
   match r with
   | ROk _ s' => lpost inp pre s'
-  | RErr d s' => lpost inp pre s' /\ d = errf s'
+  | RErr d s' => lpost inp pre s' /\ exists m, d = errf m s'
   | RFuel => False
   end.
 
@@ -194,8 +194,8 @@ Proof.
     apply lpost_eof; [exact He|]. rewrite <- Hp. apply pfx_snoc'.
 Qed.
 
-Lemma errf_lpost pre s : lpost inp pre s -> lres_ok (A:=list N) pre (RErr (errf s) s).
-Proof. intros H. split; auto. Qed.
+Lemma errf_lpost pre m s : lpost inp pre s -> lres_ok (A:=list N) pre (RErr (errf m s) s).
+Proof. intros H. split; [exact H|]. exists m. reflexivity. Qed.
 
 Lemma regex_loop_spec : forall fuel s acc pre c,
   lcur inp s pre c -> (length (rest s) < fuel)%nat ->
@@ -264,7 +264,7 @@ Lemma number_loop_spec : forall fuel s sd acc pre c,
   lcur inp s pre c -> (length (rest s) < fuel)%nat ->
   match number_loop fuel s sd acc with
   | ROk a s' => fst a <> EOF /\ exists pre' c', pfx pre pre' /\ lcur inp s' pre' c'
-  | RErr d s' => d = errf s' /\ exists pre' c', pfx pre pre' /\ lcur inp s' pre' c'
+  | RErr d s' => (exists m, d = errf m s') /\ exists pre' c', pfx pre pre' /\ lcur inp s' pre' c'
   | RFuel => False
   end.
 Proof.
@@ -283,7 +283,7 @@ Proof.
         eapply pfx_trans; [apply pfx_snoc'|exact Hp].
     + destruct (N.eqb v 46).
       * destruct sd.
-        -- split; [reflexivity|]. exists pre, c. auto using pfx_refl.
+        -- split; [eexists; reflexivity|]. exists pre, c. auto using pfx_refl.
         -- specialize (IH (next s) true (acc ++ [46%N]) (pre ++ [c]) v Hn Hlen).
            destruct (number_loop f (next s) true (acc ++ [46%N])) as [a s'|d s'|]; [| |exact IH].
            ++ destruct IH as (Hty & p' & c' & Hp & Hc'). split; [exact Hty|]. exists p', c'. split; [|exact Hc'].
@@ -303,7 +303,7 @@ Definition next_token_ok (pre : list N) (r : lexres * lstate) : Prop :=
   match r with
   | (LEof, s') => leof inp s'
   | (LTok t, s') => tok_range pre t s' /\ ty t <> EOF
-  | (LErr d, s') => exists pd, pfx pre pd /\ lon inp s' pd /\ d = mkDiag (P pd) (P pd)
+  | (LErr d, s') => exists pd m, pfx pre pd /\ lon inp s' pd /\ d = mkDiag (P pd) (P pd) m
   | (LFuel, _) => False
   end.
 
@@ -317,7 +317,7 @@ Proof.
   intros Hp Hfull Hty Hr. destruct r as [l s'|d s'|]; cbn in *.
   - split; [|exact Hty]. destruct Hr as (pe & Hpe & Hon).
     exists ps, pe, c0. cbn. repeat split; auto. apply (lon_pos _ _ _ Hon).
-  - destruct Hr as [(pe & Hpe & Hon) ->]. exists pe. split; [eapply pfx_trans; eauto|].
+  - destruct Hr as [(pe & Hpe & Hon) [m ->]]. exists pe, m. split; [eapply pfx_trans; eauto|].
     split; [exact Hon|]. unfold errf. rewrite (lon_pos _ _ _ Hon). reflexivity.
   - exact Hr.
 Qed.
@@ -388,7 +388,7 @@ Proof.
       destruct (next_token_fuel f (next s)) as [[t0|d| |] s']; cbn in *; auto.
       - destruct Hw as [(ps & pe & c0 & H1 & H2 & H3 & H4 & H5 & H6) Hty]. split; [|exact Hty].
         exists ps, pe, c0. repeat split; auto. eapply pfx_trans; [apply pfx_snoc'|exact H1].
-      - destruct Hw as (pd & H1 & H2 & H3). exists pd. repeat split; auto.
+      - destruct Hw as (pd & m & H1 & H2 & H3). exists pd, m. repeat split; auto.
         eapply pfx_trans; [apply pfx_snoc'|exact H1]. }
     destruct (is_digit c).
     { unfold lex_number.
@@ -398,7 +398,7 @@ Proof.
         exists pre, p', c. cbn. repeat split; auto using pfx_refl.
         + apply (lc_pos _ _ _ _ Hc').
         + eapply lcur_on; eauto.
-      - destruct Hn as (Hd & p' & c' & Hp & Hc'); [lia|]. cbn. exists p'. repeat split; auto.
+      - destruct Hn as ([m Hd] & p' & c' & Hp & Hc'); [lia|]. cbn. exists p', m. repeat split; auto.
         + eapply lcur_on; eauto.
         + rewrite Hd. unfold errf. rewrite (lc_pos _ _ _ _ Hc'). reflexivity.
       - apply Hn. lia. }
@@ -412,7 +412,7 @@ Proof.
         - apply (lc_pos _ _ _ _ Hc').
         - eapply lcur_on; eauto. }
       destruct (list_N_eqb l lit_true || list_N_eqb l lit_false)%bool; apply Hr'; discriminate. }
-    cbn. exists pre. repeat split; auto using pfx_refl.
+    cbn. exists pre, (msg_char c). repeat split; auto using pfx_refl.
     + eapply lcur_on; eauto.
     + unfold errf. rewrite Hpos. reflexivity.
 Qed.
@@ -443,7 +443,7 @@ Proof.
   unfold next. rewrite (le_rest _ _ He). cbn. reflexivity.
 Qed.
 
-Lemma diag_P_wf inp pd : pfx pd inp -> diag_wf inp (mkDiag (P pd) (P pd)).
+Lemma diag_P_wf inp pd m : pfx pd inp -> diag_wf inp (mkDiag (P pd) (P pd) m).
 Proof. intros H. repeat split; cbn; try apply valid_P; auto. apply pos_le_refl. Qed.
 
 Lemma all_tokens_loop_spec inp ff : forall fuel s pre,
@@ -478,7 +478,7 @@ Proof.
       split; [exact Htw|]. split; [exact Hty|].
       exists (fst (tend t) + 1, 0). split; [unfold pos_lt; cbn; lia|exact I].
   - (* error *)
-    destruct Hn as (pd & H1 & H2 & H3); [lia|].
+    destruct Hn as (pd & m & H1 & H2 & H3); [lia|].
     assert (Hdw : diag_wf inp d). { rewrite H3. apply diag_P_wf. eapply lon_pfx; eauto. }
     destruct ff.
     + split; [reflexivity|]. split; [exact I|]. constructor; [exact Hdw|constructor].
